@@ -77,8 +77,15 @@ def fault_case(rng):
         cut = len(pre) + len(fault)
         src = src[:cut]
         must = set(w[:3])
+    files = None
+    if rng.random() < 0.25:
+        # definitions read from a file earlier in the document (also an empty file) must not disturb error reporting
+        inp = '\\LTinput{e.tex}' + rng.choice(['\n', ' ', '\n\n'])
+        src = inp + src
+        pos += len(inp)
+        files = {'e.tex': rng.choice(['', '', '\\newcommand{\\qq}{Q}\n', '% nothing\n', ' '])}
     return {'src': src, 'opts': {'pack': '*', 'lang': rng.choice(['', 'de'])}, 'multi': False, 'kind': 'fault:' + kind,
-            'fault_pos': pos, 'must': sorted(must), 'msg': msg}
+            'fault_pos': pos, 'must': sorted(must), 'msg': msg, 'files': files}
 
 def judge_fault(case, res):
     if res['outcome'] != 'ok':
